@@ -374,7 +374,9 @@ impl SharedRateLimiter {
                     // No permit yet. After a previous wait this means another waiter
                     // took the permit we were waiting for; keep waiting only while the
                     // total wait stays within the timeout.
-                    if start.elapsed() + wait_duration > self.timeout_duration {
+                    // (saturating: with `refresh_period(Duration::MAX)` the wait is
+                    // `Duration::MAX`, and `elapsed + wait` must not overflow)
+                    if start.elapsed().saturating_add(wait_duration) > self.timeout_duration {
                         return Err(());
                     }
                     sleep(wait_duration).await;
